@@ -130,6 +130,9 @@ fn check_ranges(rep: &mut Report, tag: &str, hay: &str, out: &str, label: &str) 
 /// `focus` ∈ C01 C02 C03 C04 C05 C06 C13.
 pub fn engine(rep: &mut Report, focus: &str, n: usize, seed: u64, thorough: bool) {
     let mut rng = Rng::new(seed);
+    if focus == "C06" {
+        crate::guard::install_fault_handler();
+    }
     let cfg = GenCfg { max_depth: if thorough { 4 } else { 3 }, first_term_bias: focus == "C04", ..GenCfg::default() };
     let mut feats_seen: BTreeSet<&'static str> = BTreeSet::new();
     let mut done = 0usize;
@@ -279,6 +282,27 @@ pub fn engine(rep: &mut Report, focus: &str, n: usize, seed: u64, thorough: bool
                         rep.tie(format!("runprog pk utf8 {} {} {}", prog, ast::bytes_hex(hay.as_bytes()), start), format!("ok {} {} {}", pk.steps, pk.peak, pk.text).trim_end().to_string());
                     }
                     "C06" => {
+                        // the same searches with the haystack placed against inaccessible memory at either end: a read
+                        // outside the haystack faults (the handler names this case) instead of going unnoticed
+                        if hay.len() <= 4096 {
+                            crate::guard::set_trace(&label);
+                            for at_end in [true, false] {
+                                if let Some(g) = crate::guard::Guarded::new(&hay, at_end) {
+                                    let gs = g.as_str();
+                                    for (re, e) in [(&c.opt, Exec::Bt), (&c.opt, Exec::Pk), (&c.noopt, Exec::Bt)] {
+                                        let r = run_exec(re, e, gs, start, 64);
+                                        if e == Exec::Bt && std::ptr::eq(re, &c.opt) && differ(&r.text, &bt.text) {
+                                            rep.violation("impl-vs-impl:C06", format!("same haystack at another address: [{}] vs [{}]", r.text, bt.text), label.clone());
+                                        }
+                                    }
+                                    if is_ascii(h) {
+                                        let _ = run_exec(&c.opt, Exec::BtAscii, gs, start, 64);
+                                        let _ = run_exec(&c.opt, Exec::PkAscii, gs, start, 64);
+                                    }
+                                    rep.count("guard-page-runs");
+                                }
+                            }
+                        }
                         check_ranges(rep, "C06", &hay, &bt.text, &label);
                         let pk = run_exec(&c.opt, Exec::Pk, &hay, start, 64);
                         if pk.text.starts_with("panic") {
@@ -343,6 +367,7 @@ pub fn engine(rep: &mut Report, focus: &str, n: usize, seed: u64, thorough: bool
         crate::scope::literal_scope(rep, &mut rng, thorough);
         crate::scope::deep_first_scope(rep);
         crate::scope::dense_candidate_scope(rep, "C04");
+        crate::scope::class_edge_prefix_scope(rep);
     }
     if focus == "C01" {
         crate::scope::run_spec_probes(rep);
